@@ -259,3 +259,5 @@ CHECKS["C07"].update(
     note=CHECKS["C07"]["note"].replace("and the native unit C07.dataset (bounded).", "and the native unit C07.dataset (bounded: eager and lazy readers, items and pixel data fragments with odd lengths)."))
 CHECKS["C08"].update(
     technique=CHECKS["C08"]["technique"] + "; native comparison of header streams with the real dictionary (stand-in)")
+CHECKS["C05"].update(
+    note=CHECKS["C05"]["note"].replace("are exercised only by the native unit C05.hostile", "— and JSON deserialisation, dumping and pixel data decoding — are exercised only by the native units C05.hostile / C05.hostile2"))
